@@ -178,7 +178,10 @@ Section EVAL.
             | _ => dispatch_error name
             end
         | None =>
-        if String.eqb name "print" then s <- string_of_value a ;; Prim (POut (s ++ newline)) ;;; void_var
+        if existsb (String.eqb name) ["long_double"; "unsigned_int"; "unsigned_long"; "long_long"; "unsigned_long_long"; "char"; "wchar_t"; "char16_t"; "char32_t";
+                                       "int8_t"; "int16_t"; "int32_t"; "int64_t"; "uint8_t"; "uint16_t"; "uint32_t"; "uint64_t"]
+        then unsup ("arithmetic constructor " ++ name)
+        else if String.eqb name "print" then s <- string_of_value a ;; Prim (POut (s ++ newline)) ;;; void_var
         else if String.eqb name "puts" then s <- string_of_value a ;; Prim (POut s) ;;; void_var
         else if String.eqb name "to_string" then s <- string_of_value a ;; new_value (OStr s) false true
         else if String.eqb name "throw" then throw (EBoxed a)
@@ -443,6 +446,12 @@ Section EVAL.
     d <- clone_if_necessary v ;;
     reset_ret d ;;;
     declare (a_text (child 0 n)) d.
+
+  (* Global_Decl_AST_Node: `global x` / `global &x`: the global of that name, created undefined when new *)
+  Definition eval_global_decl (n : ast) : prog dloc :=
+    let c0 := child 0 n in
+    let name := match a_kind c0 with KReference => a_text (child 0 c0) | _ => a_text c0 end in
+    d <- new_undef ;; Prim (PAddGlobal name d).
 
   Definition eval_reference (n : ast) : prog dloc :=
     d <- new_undef ;; add_object (a_text (child 0 n)) d ;;; Ret d.
@@ -863,6 +872,7 @@ Section EVAL.
     | KVar_Decl => eval_var_decl n
     | KAssign_Decl => eval_assign_decl n
     | KReference => eval_reference n
+    | KGlobal_Decl => eval_global_decl n
     | KBlock => eval_block true n
     | KScopeless_Block => eval_block false n
     | KIf => eval_if n
